@@ -20,6 +20,7 @@ import (
 	"testing"
 	"time"
 
+	ipfslogiface "berty.tech/go-ipfs-log/iface"
 	"github.com/libp2p/go-libp2p/core/crypto"
 	"google.golang.org/grpc"
 	"google.golang.org/grpc/metadata"
@@ -184,6 +185,27 @@ func TestVerifC19(t *testing.T) {
 		pool.bytesets = append(pool.bytesets, b, inv.Group.Secret, inv.Group.SecretSig)
 	}
 
+	// identifiers of the entries of the groups' logs (for since/until)
+	entryIDs := map[string][][]byte{}
+	for _, gpk := range [][]byte{cr.GroupPk, cfg.AccountGroupPk} {
+		for i := 0; i < 3; i++ {
+			_, _ = svc.AppMetadataSend(ctx, &protocoltypes.AppMetadataSend_Request{GroupPk: gpk, Payload: []byte(fmt.Sprint("m", i))})
+		}
+		if gc, err := svc.GetContextGroupForID(gpk); err == nil {
+			for _, e := range vCanonicalEntries(gc.metadataStore.OpLog()) {
+				entryIDs[string(gpk)+"/meta"] = append(entryIDs[string(gpk)+"/meta"], e)
+				pool.bytesets = append(pool.bytesets, e)
+			}
+			for i := 0; i < 3; i++ {
+				_, _ = svc.AppMessageSend(ctx, &protocoltypes.AppMessageSend_Request{GroupPk: gpk, Payload: []byte(fmt.Sprint("p", i))})
+			}
+			for _, e := range vCanonicalEntries(gc.messageStore.OpLog()) {
+				entryIDs[string(gpk)+"/msg"] = append(entryIDs[string(gpk)+"/msg"], e)
+				pool.bytesets = append(pool.bytesets, e)
+			}
+		}
+	}
+
 	// the methods of the service, from the gRPC service descriptor
 	type method struct {
 		name   string
@@ -300,6 +322,23 @@ func TestVerifC19(t *testing.T) {
 				req := reflect.New(reqT.Elem()).Interface().(proto.Message)
 				if k > 0 {
 					pool.fill(req.ProtoReflect(), 2)
+				}
+				if (m.name == "GroupMetadataList" || m.name == "GroupMessageList") && k == 2 {
+					// both bounds among the real identifiers of a real log, in any order
+					gpk := [][]byte{cr.GroupPk, cfg.AccountGroupPk}[rng.Intn(2)]
+					kind := "/meta"
+					if m.name == "GroupMessageList" {
+						kind = "/msg"
+					}
+					r := req.ProtoReflect()
+					fds := r.Descriptor().Fields()
+					r.Set(fds.ByName("group_pk"), protoreflect.ValueOfBytes(gpk))
+					if ids := entryIDs[string(gpk)+kind]; len(ids) > 0 {
+						r.Set(fds.ByName("since_id"), protoreflect.ValueOfBytes(ids[rng.Intn(len(ids))]))
+						r.Set(fds.ByName("until_id"), protoreflect.ValueOfBytes(ids[rng.Intn(len(ids))]))
+					}
+					r.Clear(fds.ByName("since_now"))
+					r.Clear(fds.ByName("until_now"))
 				}
 				if m.name == "DeactivateGroup" || m.name == "MultiMemberGroupLeave" {
 					// keep the state under the control of the round schedule, unless the key is unknown
@@ -421,4 +460,15 @@ func TestVerifC19(t *testing.T) {
 		}
 	}
 	t.Logf("calls=%d errors=%d", calls, errs)
+}
+
+
+func vCanonicalEntries(l interface {
+	GetEntries() ipfslogiface.IPFSLogOrderedEntries
+}) [][]byte {
+	var out [][]byte
+	for _, e := range l.GetEntries().Slice() {
+		out = append(out, e.GetHash().Bytes())
+	}
+	return out
 }
